@@ -87,6 +87,8 @@ module Coq_Pos :
 
   val pred_double : positive -> positive
 
+  val pred_N : positive -> n
+
   type mask = Pos.mask =
   | IsNul
   | IsPos of positive
@@ -106,6 +108,10 @@ module Coq_Pos :
 
   val iter : ('a1 -> 'a1) -> 'a1 -> positive -> 'a1
 
+  val div2 : positive -> positive
+
+  val div2_up : positive -> positive
+
   val size : positive -> positive
 
   val compare_cont : comparison -> positive -> positive -> comparison
@@ -113,6 +119,16 @@ module Coq_Pos :
   val compare : positive -> positive -> comparison
 
   val eqb : positive -> positive -> bool
+
+  val coq_Nsucc_double : n -> n
+
+  val coq_Ndouble : n -> n
+
+  val coq_lor : positive -> positive -> positive
+
+  val coq_land : positive -> positive -> n
+
+  val ldiff : positive -> positive -> n
 
   val iter_op : ('a1 -> 'a1 -> 'a1) -> positive -> 'a1 -> 'a1
 
@@ -127,6 +143,8 @@ module N :
 
   val double : n -> n
 
+  val succ_pos : n -> positive
+
   val sub : n -> n -> n
 
   val compare : n -> n -> comparison
@@ -138,6 +156,12 @@ module N :
   val ltb : n -> n -> bool
 
   val pos_div_eucl : positive -> n -> n * n
+
+  val coq_lor : n -> n -> n
+
+  val coq_land : n -> n -> n
+
+  val ldiff : n -> n -> n
  end
 
 module Z :
@@ -200,7 +224,15 @@ module Z :
 
   val odd : z -> bool
 
+  val div2 : z -> z
+
   val log2 : z -> z
+
+  val shiftl : z -> z -> z
+
+  val coq_lor : z -> z -> z
+
+  val coq_land : z -> z -> z
  end
 
 type str = n list
@@ -390,10 +422,14 @@ type fdecl = { f_args : ty3 list; f_ret : ty3; f_impl : fimpl }
 
 type registry = (str * fdecl) list
 
+val ty3_eqb : ty3 -> ty3 -> bool
+
 type envcfg = { min_idx : z; max_idx : z; max_depth : nat; reg : registry;
                 rx : (bool -> str -> str -> bool) }
 
 val dec_cmpop : cmpop dec
+
+val enc_cmpop : cmpop -> z list
 
 val dec_ty3 : ty3 dec
 
@@ -404,6 +440,14 @@ val dec_expr_f : nat -> z list -> (expr * z list) option
 val dec_seg_f : nat -> z list -> (seg * z list) option
 
 val dec_query : query dec
+
+val enc_sel : sel -> z list
+
+val enc_expr : expr -> z list
+
+val enc_seg : seg -> z list
+
+val enc_query : query -> z list
 
 val dec_pyobj : pyobj dec
 
@@ -578,6 +622,18 @@ val ttype_eqb : ttype -> ttype -> bool
 
 type token = { ty : ttype; tval : str; tidx : z }
 
+type stream = { cur : token; pushed : token list; rest : token list }
+
+val eof_token : token
+
+val stream_init : token list -> stream
+
+val s_next : stream -> token * stream
+
+val s_push : stream -> token -> stream
+
+val s_peek : stream -> token * stream
+
 type re =
 | REps
 | RClass of bool * (n * n) list
@@ -715,9 +771,123 @@ val py_float : str -> num option
 
 val py_int_of_float : num -> z option
 
+type 'a pres =
+| POk of 'a * stream
+| PErr of jperr * z
+| PCrash of pyexn * stream
+| PFuel
+
+val pbind : 'a1 pres -> ('a1 -> stream -> 'a2 pres) -> 'a2 pres
+
+val cty : stream -> ttype
+
+val is_ty : ttype -> stream -> bool
+
+val peek_ty : stream -> ttype
+
+val err_cur : jperr -> stream -> 'a1 pres
+
+val err_peek : jperr -> stream -> 'a1 pres
+
+val adv : stream -> stream
+
+val after_peek : stream -> stream
+
+val pRECEDENCE_LOWEST : z
+
+val pRECEDENCE_PREFIX : z
+
+val precedence_of : ttype -> z
+
+type binop =
+| BAnd
+| BOr
+| BCmp of cmpop
+
+val binary_operator : ttype -> binop option
+
+val is_comparison_tok : ttype -> bool
+
+val in_token_map : ttype -> bool
+
+val in_function_argument_map : ttype -> bool
+
+val is_literal : expr -> bool
+
+val is_filter_query : expr -> bool
+
+val is_compound : expr -> bool
+
+val m_singular : seg list -> bool
+
+val query_of : expr -> seg list
+
+val function_return_type : registry -> expr -> ty3 option
+
+val opt_ty_is : ty3 option -> ty3 -> bool
+
+val replace_dq : str -> str
+
+val replace_esc_sq : str -> str
+
+val hex_val : n -> z option
+
+val parse_hex4 : str -> z -> z option
+
+val is_high_surrogate : z -> bool
+
+val is_low_surrogate : z -> bool
+
+type dres =
+| DOk of z * z
+| DSyntax
+| DIndexError
+
+val ceq_z : n option -> n -> bool
+
+val decode_hex_char : str -> z -> dres
+
+val decode_escape : str -> z -> dres
+
+val unescape_loop : nat -> str -> z -> n list -> str option option
+
+val decode_string_literal : token -> str result
+
+val starts_with : str -> str -> bool
+
+val int_of_index : str -> z
+
+val lstrip_minus : str -> str
+
+val take_until : (n -> bool) -> str -> str
+
+val has_leading_zero : str -> bool
+
+val in_range : envcfg -> z -> bool
+
+val p_literal : stream -> (expr * z) pres
+
+val maybe_index : stream -> bool pres
+
+val p_slice : envcfg -> stream -> sel pres
+
+val value_function : envcfg -> expr -> bool
+
+val non_comparable : envcfg -> expr -> jperr option
+
+val check_args : envcfg -> ty3 list -> expr list -> bool
+
+val p_query : envcfg -> nat -> bool -> stream -> seg list pres
+
+val parse_fuel : token list -> nat
+
+val p_parse : envcfg -> token list -> query pres
+
+val m_compile : envcfg -> str -> query result
+
 val iota_json : z -> json list
 
-val enc_sel : (z * json) list -> z list
+val enc_sel0 : (z * json) list -> z list
 
 val mk_cfg : nat -> registry -> rxrow list -> envcfg
 
@@ -734,5 +904,7 @@ val enc_token : token -> z list
 val op_tokenize : z list -> z list
 
 val op_float : z list -> z list
+
+val op_compile : z list -> z list
 
 val dispatch : z list -> z list
